@@ -210,6 +210,7 @@ def generate(rng, tier):
             ('revert-same-stamp', [(0, full(1)), (1, full(2)), (1, full(1))]),
             ('late-dates', [(0, [(0, 1)]), (1, [(i, 2) for i in range(1, nd)])]),
             ('empty-first', [(0, []), (0, full(1)), (1, [])]),
+            ('two-empty-first', [(0, []), (1, []), (1, full(1))]),      # the second bi_merge raises ValueError (historyE_raises)
         ]
         for name, hist in specials:
             lines = []
